@@ -772,13 +772,105 @@ func (r *c08Run) famUpdate(v int) {
 	s.tx(a, a, "ESDTNFTAddURI", bigGas, tok, be(1), []byte("unpaused"))
 }
 
+// role patterns: {only AddURI, only UpdateAttributes, both, neither, both but for another token} x the two functions;
+// roles installed and removed through the real ESDTSetRole / ESDTUnSetRole; success iff the caller holds THAT function's role for THAT token
+func (r *c08Run) famRolePatterns(v int) {
+	s := r.newScn("role-patterns", v)
+	u := s.u
+	const rURI, rAttr = "ESDTRoleNFTAddURI", "ESDTRoleNFTUpdateAttributes"
+	tok, tok2 := u.NFTs[v%2], u.NFTs[(v+1)%2]
+	all := [][]byte{u.U[0], u.U[1], u.U[2], u.U[3], u.K[0], u.K[1]}
+	rot := func(i int) []byte { return all[(i+v)%len(all)] }
+	creator := rot(0)
+	s.expect(s.sys(creator, "ESDTSetRole", roleArgs(tok, "ESDTRoleNFTCreate", "ESDTRoleNFTAddQuantity")...), "grant-create")
+	s.expect(s.sys(creator, "ESDTSetRole", roleArgs(tok2, "ESDTRoleNFTCreate", "ESDTRoleNFTAddQuantity")...), "grant-create")
+	s.expect(s.tx(creator, creator, fnCreate, bigGas, createArgs(tok, 100, "rp")...), "create")
+	s.expect(s.tx(creator, creator, fnCreate, bigGas, createArgs(tok2, 100, "rp2")...), "create")
+	type pat struct {
+		who  []byte
+		name string
+		uri  bool
+		attr bool
+	}
+	pats := []*pat{{rot(1), "only-AddURI", true, false}, {rot(2), "only-UpdateAttributes", false, true}, {rot(3), "both", true, true},
+		{rot(4), "neither", false, false}, {rot(5), "other-token-only", false, false}, {creator, "creator-without-either", false, false}}
+	for _, p := range pats {
+		if !bytes.Equal(p.who, creator) {
+			s.deliverNew(s.tx(creator, creator, "ESDTNFTTransfer", bigGas, tok, be(1), be(5), p.who))
+			s.deliverNew(s.tx(creator, creator, "ESDTNFTTransfer", bigGas, tok2, be(1), be(5), p.who))
+		}
+		var roles []string
+		if p.uri {
+			roles = append(roles, rURI)
+		}
+		if p.attr {
+			roles = append(roles, rAttr)
+		}
+		if len(roles) > 0 {
+			s.expect(s.sys(p.who, "ESDTSetRole", roleArgs(tok, roles...)...), "set-role")
+		}
+		if p.name == "other-token-only" {
+			s.expect(s.sys(p.who, "ESDTSetRole", roleArgs(tok2, rURI, rAttr)...), "set-role-other-token")
+		}
+		if p.name == "neither" { // an unrelated role on the token: the role list exists but holds neither
+			s.sys(p.who, "ESDTSetRole", roleArgs(tok, "ESDTRoleNFTBurn")...)
+		}
+	}
+	round := 0
+	probe := func(p *pat, when string) {
+		round++
+		for _, fn := range []string{"ESDTNFTAddURI", "ESDTNFTUpdateAttributes"} {
+			want := p.uri
+			arg := []byte(fmt.Sprintf("uri-%d", round))
+			if fn == "ESDTNFTUpdateAttributes" {
+				want, arg = p.attr, []byte(fmt.Sprintf("attr-%d", round))
+			}
+			sr := s.tx(p.who, p.who, fn, bigGas, tok, be(1), arg)
+			got := srOK(sr)
+			s.c.count(fmt.Sprintf("C08/role-pattern/%s/%s/holds-role=%v/%s", p.name, fn, want, statusName(sr.Res.Status)))
+			if got != want {
+				class := "update-refused-for-role-holder"
+				if got {
+					class = "update-authority"
+				}
+				s.c.fail("monitor", class+"/"+fn, fmt.Sprintf("%s by %x (%s, %s): holds the role of this function for %q = %v, call status %s (%v)", fn, p.who, p.name, when, tok, want, statusName(sr.Res.Status), sr.Res.Err), stdReplay(sr, s.hist))
+			}
+		}
+	}
+	for _, p := range pats {
+		probe(p, "as installed")
+	}
+	// toggle: remove what is held, install what was missing (through the system contract), probe again; then remove everything
+	for _, p := range pats {
+		if p.uri {
+			s.expect(s.sys(p.who, "ESDTUnSetRole", roleArgs(tok, rURI)...), "unset")
+		} else {
+			s.expect(s.sys(p.who, "ESDTSetRole", roleArgs(tok, rURI)...), "set")
+		}
+		p.uri = !p.uri
+		probe(p, "after toggling AddURI")
+		if p.attr {
+			s.expect(s.sys(p.who, "ESDTUnSetRole", roleArgs(tok, rAttr)...), "unset")
+		} else {
+			s.expect(s.sys(p.who, "ESDTSetRole", roleArgs(tok, rAttr)...), "set")
+		}
+		p.attr = !p.attr
+		probe(p, "after toggling UpdateAttributes")
+	}
+	for _, p := range pats {
+		s.sys(p.who, "ESDTUnSetRole", roleArgs(tok, rURI, rAttr)...)
+		p.uri, p.attr = false, false
+		probe(p, "after removing both")
+	}
+}
+
 const c08Proj = "{| p_gas := false; p_transfers := true; p_logs := true; p_retdata := false; p_state := true; p_deps := false |}"
 
 func init() {
 	runners["C08"] = func(c *ctx) {
 		c.stateProj = "sp_metadata" // the part of the state this property's theorems speak about
 		u := newUniverse()
-		c.rep.Rule = "every executed call is checked on the implementation with the production protobuf encoder: (1) a successful ESDTNFTCreate stores exactly (nonce, name, creator = caller, royalties, hash, attributes, URIs) of its arguments, the stored royalties are <= 10000 (arguments above 2^32 are truncated to uint32 first: 2^32+1 stores 1, 2^32+10001 is rejected) and the log topic carries the stored bytes; (2) every hop of ESDTNFTTransfer / MultiESDTNFTTransfer (same shard, emitted cross-shard message, delivery, refund): decoded metadata on arrival / in the message deep-equals the sender's; an arrival on a held copy with another hash must not succeed; (3) ESDTNFTAddURI appends exactly its URI arguments, ESDTNFTUpdateAttributes replaces the attributes, both only for a caller holding the role on its own entry, and every other cell of every account of the shard is unchanged; (4) frame for all 23 functions: no other call changes the metadata of an existing entry, no entry with metadata appears except by creation or a credited transfer; (5) history level: every stored copy of a (token, nonce) carries a metadata value produced by its creation or by an AddURI / UpdateAttributes on some copy. Families: metadata pools (empty and large name / hash / attributes, URI lists with empty entries, royalties 0, 1, 9999, 10000, 10001, 2^32-1, 2^32+1, 2^32+10000, 2^32+10001, 2^64-1, 9-byte numbers, zero padded), routes of 1..4 hops over users and contracts on 1-3 shards (single / multi, partial quantities, the same NFT twice in one multi-transfer, late delivery) with an end-to-end comparison against the creation metadata, two creators with equal nonce and different / equal hash (all ways in, refund), the two update functions on own holdings, foreign holdings and copies, frozen and paused; plus random walks. Every executed call is re-evaluated in the Coq model (state, logs, transfers). distinct = distinct (shard state, call)."
+		c.rep.Rule = "every executed call is checked on the implementation with the production protobuf encoder: (1) a successful ESDTNFTCreate stores exactly (nonce, name, creator = caller, royalties, hash, attributes, URIs) of its arguments, the stored royalties are <= 10000 (arguments above 2^32 are truncated to uint32 first: 2^32+1 stores 1, 2^32+10001 is rejected) and the log topic carries the stored bytes; (2) every hop of ESDTNFTTransfer / MultiESDTNFTTransfer (same shard, emitted cross-shard message, delivery, refund): decoded metadata on arrival / in the message deep-equals the sender's; an arrival on a held copy with another hash must not succeed; (3) ESDTNFTAddURI appends exactly its URI arguments, ESDTNFTUpdateAttributes replaces the attributes, both only for a caller holding the role on its own entry, and every other cell of every account of the shard is unchanged; (4) frame for all 23 functions: no other call changes the metadata of an existing entry, no entry with metadata appears except by creation or a credited transfer; (5) history level: every stored copy of a (token, nonce) carries a metadata value produced by its creation or by an AddURI / UpdateAttributes on some copy. Families: metadata pools (empty and large name / hash / attributes, URI lists with empty entries, royalties 0, 1, 9999, 10000, 10001, 2^32-1, 2^32+1, 2^32+10000, 2^32+10001, 2^64-1, 9-byte numbers, zero padded), routes of 1..4 hops over users and contracts on 1-3 shards (single / multi, partial quantities, the same NFT twice in one multi-transfer, late delivery) with an end-to-end comparison against the creation metadata, two creators with equal nonce and different / equal hash (all ways in, refund), the two update functions on own holdings, foreign holdings and copies, frozen and paused; role patterns {only AddURI, only UpdateAttributes, both, neither, both for another token only, creator without either} x the two functions, installed, toggled and removed through ESDTSetRole / ESDTUnSetRole: the call succeeds iff the caller holds the own role of that function for that token; plus random walks. Every executed call is re-evaluated in the Coq model (state, logs, transfers). distinct = distinct (shard state, call)."
 		c.setExecStream(c08Proj)
 		c.perFile = 90
 		quick := !(c.thorough() || c.widen)
@@ -792,6 +884,8 @@ func init() {
 			r.famCreatePool(v)
 			r.famHashMismatch(v)
 			r.famUpdate(v)
+			r.famRolePatterns(v)
+			r.famRolePatterns(v + nv)
 		}
 		for v := 0; v < nRoute; v++ {
 			r.famRoutes(v, routes) // the first worlds are written as Coq cases until the budget is used, the others run on the implementation only
@@ -801,6 +895,6 @@ func init() {
 			Tune: func(g *gen) {
 				g.wTransfer, g.wSupply, g.wSystem, g.wAccount, g.wDeliver, g.wHostile = 40, 34, 8, 2, 16, 0
 			}})
-		c.sample(map[string]interface{}{"families": []string{"create-pool", "routes", "hash-mismatch", "adduri-updateattributes", "walk"}})
+		c.sample(map[string]interface{}{"families": []string{"create-pool", "routes", "hash-mismatch", "adduri-updateattributes", "role-patterns", "walk"}})
 	}
 }
